@@ -33,27 +33,27 @@ type c13Op struct {
 
 type c13Scenario struct {
 	Pool  int     `json:"pool"`
-	Stall bool    `json:"stall"` // stall queue workers at the core instead of comparing release results
+	Stall bool    `json:"stall"`          // stall queue workers at the core instead of comparing release results
 	Hold  []int64 `json:"hold,omitempty"` // with Stall: exactly these messages are stalled (default: seeded choice)
 	Ops   []c13Op `json:"ops"`
 }
 
 const (
-	c13SigOrder   = "C13/order"
-	c13SigPool    = "C13/pool-change-reorder"
+	c13SigOrder = "C13/order"
+	c13SigPool  = "C13/pool-change-reorder"
 )
 
 type c13Sent struct {
-	seq        int64
-	a, b       uint64
-	key        uint64 // id the wire byte derives from (b, or a for name-addressed sends)
-	mode       string
-	keep       bool
-	epoch      int // pool epoch at send time
-	link       int // link the frame was really written to
-	order      byte
-	modelIdx   int // index of the model line
-	delivered  bool
+	seq       int64
+	a, b      uint64
+	key       uint64 // id the wire byte derives from (b, or a for name-addressed sends)
+	mode      string
+	keep      bool
+	epoch     int // pool epoch at send time
+	link      int // link the frame was really written to
+	order     byte
+	modelIdx  int // index of the model line
+	delivered bool
 }
 
 type c13RelCheck struct {
@@ -638,4 +638,3 @@ func c13Witnesses() []c13Witness {
 			send(1021, 1005), send(1022, 1005), send(1023, 1005), {Kind: "drop", L: 0}, send(1021, 1005), send(1022, 1005), send(1023, 1005), rrev}}},
 	}
 }
-
